@@ -130,7 +130,7 @@ def leaf_scan(h, spec, now):
     if spec['group'] is not None:
         count = H.groups.get(spec['group'], 0)
         held = {a.identity for n, a in cell.apps.items()
-                if n in H.apps and H.apps[n]['group'] == spec['group'] and a.identity is not None}
+                if n in H.apps and H.apps[n]['group'] == spec['group'] and a.identity is not None and a.server}
         ident_free = bool(set(range(count)) - held)
     return fit, ident_free
 
